@@ -272,6 +272,7 @@ def rest(ctx):
     # ---- R5: the helpers themselves (MSB-first two's complement, byte groups)
     from . import C10_helpers
     C10_helpers.run(ctx, "C10.R5")
+    unused_parameters(ctx, "C10.R5", lambda f: f.relpath.endswith(("lib/binary.py", "lib/bitstream.py")))      # e.g. a `signed` or `swapped` flag accepted and ignored
     # ---- R6: the two machines the macros instantiate: the inner construct only ever sees the decoded view
     machinery(ctx, "C10.R6")
     ctx.floor("C10.R6", 8)
